@@ -139,7 +139,7 @@ func createProcess(p *Process, isMethod bool) {
 	case "err":
 		//p.Stderr.Writeln([]byte("Invalid usage of named pipes: stderr defaults to <err>."))
 	case "out":
-		p.Stderr = p.Next.Stdin
+		p.Stderr = p.Stdout
 	default:
 		pipe, err := GlobalPipes.Get(p.NamedPipeErr)
 		if err == nil {
